@@ -990,6 +990,10 @@ def _multi(rep, ex: Explorer, stats):
                 continue
             evs = [ev for ev, Q in iter_events(p.events)]
             shared = {ev.obj.oid for ev in evs if ev.kind == "mp.dict" and isinstance(ev.obj, Ref)}
+            # a copy of the shared mapping taken inside the call (`dict(shared.items())`) holds what the mapping held at that
+            # moment: looking a row up there is looking it up in the mapping as it was then - what was stored later (the row
+            # of a terminated worker) is not in it, which the rows below show
+            snapshots = {oid_ for oid_, o_ in p.state.heap.items() if isinstance(o_, HDict) and getattr(o_, "snapshot_of", None) in shared}
             procs = {}
             for ev in evs:
                 if ev.kind == "mp.process":
@@ -1011,7 +1015,7 @@ def _multi(rep, ex: Explorer, stats):
             for kk, vv in p.decisions:
                 if kk[0] == "alive" and kk[1] in key_of and key_of[kk[1]] not in alive:
                     alive[key_of[kk[1]]] = vv
-                elif kk[0] == "in" and isinstance(kk[1], tuple) and kk[1][:1] == ("c",) and isinstance(kk[2], tuple) and kk[2][:1] == ("dict",) and kk[2][1] in shared:
+                elif kk[0] == "in" and isinstance(kk[1], tuple) and kk[1][:1] == ("c",) and isinstance(kk[2], tuple) and kk[2][:1] == ("dict",) and (kk[2][1] in shared or kk[2][1] in snapshots):
                     present[kk[1][1]] = vv
             # per process: started, joined; a straggler terminated and joined again
             for k in keys:
@@ -1063,7 +1067,7 @@ def _multi(rep, ex: Explorer, stats):
                 n_rows += 1
                 v = rd.entries[k]
                 flagged = isinstance(v, TupleV) and len(v.items) == 4 and v.items[0] == Const(k) and v.items[1] == Const(False) and v.items[2] == Const(True)
-                theirs = isinstance(v, Sym) and v.label == ("dictitem", ("dict", shared_oid), ("c", k))
+                theirs = isinstance(v, Sym) and (v.label == ("dictitem", ("dict", shared_oid), ("c", k)) or (shared_oid is not None and any(v.label == ("dictitem", ("dict", so_), ("c", k)) for so_ in snapshots)))
                 case = f"alive={alive.get(k)}, row left={present.get(k)}"
                 if flagged and isinstance(v.items[3], Const) and not (isinstance(v.items[3].value, (int, float)) and not isinstance(v.items[3].value, bool)):
                     # the fourth column is summed by Inference.inference and rounded by the manager's report: a row whose time is
